@@ -41,16 +41,71 @@ def two_populations(rnd, date):
     return a, b
 
 
+def scale_case(run, rnd, date, n_b):
+    """A small A next to a B of several hundred persons in which group counters run past 100 (ids are built as
+    `100 * fg_id + counter`, `hh_id`-offsets, ...): the persons of A must not notice."""
+    pa = popgen.Pop(rnd, date)
+    pa.cluster("self_sufficient_child")
+    pa.cluster("single_parent")
+    pa.cluster()
+    pb = popgen.Pop(rnd, date)
+    pb.next_p, pb.next_hh = pa.next_p, pa.next_hh
+    for i in range(n_b):
+        pb.cluster("self_sufficient_child" if i % 4 else None)
+    a = pa.frame(relabel=False, shuffle=False)
+    b = pb.frame(relabel=False, shuffle=False)
+    # ids of B below and above those of A
+    lo = b["p_id"] < b["p_id"].median()
+    shift = int(a["p_id"].max() + b["p_id"].max() + 10)
+    pmap = {p: (p + shift if l else p) for p, l in zip(b["p_id"], lo)}
+    b["p_id"] = b["p_id"].map(pmap)
+    for c in popgen.POINTERS:
+        b[c] = b[c].map(lambda v: pmap.get(v, v) if v >= 0 else v)
+    b = b.astype({c: "int64" for c in ["p_id", *popgen.POINTERS]})
+    ok, ra = run.attempt(f"simulate(A) at {date}", popgen.simulate_all, a, date,
+                         replay={"date": date, "data": popgen.frame_to_json(a)})
+    if not ok:
+        return
+    base = meta.by_pid(ra, a)
+    ok, rb = run.attempt(f"simulate(large B) at {date}", popgen.simulate_all, b, date,
+                         replay={"date": date, "data": popgen.frame_to_json(b)})
+    base_b = meta.by_pid(rb, b) if ok else None
+    for label, u in (("A ++ large B", pd.concat([a, b])), ("large B ++ A", pd.concat([b, a]))):
+        u = u.reset_index(drop=True)
+        ok, ru = run.attempt(f"simulate({label}) at {date}", popgen.simulate_all, u, date,
+                             replay={"date": date, "data": popgen.frame_to_json(u)})
+        if not ok:
+            continue
+        keyed = meta.by_pid(ru, u)
+        run.case({"date": date, "A": common.digest(popgen.frame_to_json(a)), "B": common.digest(popgen.frame_to_json(b)), "arr": label})
+        # the statement is symmetric: neither the persons of A nor those of B may notice the other population
+        for who, bs, part in (("A", base, a), ("B", base_b, b)):
+            if bs is None:
+                continue
+            sub = keyed.loc[keyed.index.isin(set(part["p_id"]))]
+            for col, why in meta.diff_columns(bs, sub, check_dtype=True):
+                run.hit({"node": col, "kind": "not-separable"},
+                        f"{col} for the persons of {who} at {date} differs between simulate({who}) and simulate({label}) "
+                        f"({len(b)} persons in B, {int(b['eigenbedarf_gedeckt'].sum())} self-supporting children): {why}",
+                        {"date": date, "A": popgen.frame_to_json(a), "B": popgen.frame_to_json(b),
+                         "arrangement": label, "node": col, "detail": why})
+    run.extra.setdefault("scale_cases", []).append({"date": date, "rows_A": len(a), "rows_B": len(b),
+                                                    "self_supporting_children_in_B": int(b["eigenbedarf_gedeckt"].sum())})
+
+
 def run(tier: str) -> int:
     r = common.Run("C02", tier)
     quick = tier == "quick"
     r.rule = ("pairs of valid populations A, B with disjoint ids (each closed under households and pointers): all nodes "
               "of simulate(A ++ B), simulate(B ++ A) and a random interleaving restricted to A vs simulate(A); injective "
               "relabelling of p_id/hh_id (sparse, up to 20x) applied consistently to the pointer columns; values 2^-40, "
-              "dtypes exactly, id columns as partitions. distinct = (A, B, arrangement).")
+              "dtypes exactly, id columns as partitions; one scale case per date (B with several hundred persons and more "
+              "than 100 self-supporting children, ids below and above A's). distinct = (A, B, arrangement).")
     common.build_and_audit(r, ["C02"], leanchecker=not quick)
     rnd = common.rng("C02")
     for date in (popgen.DATES_QUICK if quick else popgen.DATES_2015):
+        if quick or date in popgen.DATES_QUICK:
+            scale_case(r, rnd, date, 110 if quick else 160)
         for k in range(4 if quick else 20):
             a, b = two_populations(rnd, date)
             ok, ra = r.attempt(f"simulate(A) at {date}", popgen.simulate_all, a, date,
